@@ -11,6 +11,7 @@ CONSTANTS
     MaxNow = 100000000
     MaxOps = 100000000
     MaxQ = 1000
+    EmptyOn = 1
     Hist = TRUE
 CONSTRAINT Furthest
 INVARIANT TraceInv
